@@ -80,6 +80,15 @@ var upstreamClient = &http.Client{
 	},
 }
 
+func init() {
+	// Bodies are relayed and stored as the origin sent them. With transparent compression the transport
+	// asks for gzip on behalf of clients that did not, decodes the answer and drops its Content-Encoding
+	// and Content-Length, so the body no longer matches the ETag and length the origin sent with it.
+	if transport, ok := http.DefaultTransport.(*http.Transport); ok {
+		transport.DisableCompression = true
+	}
+}
+
 func sendRequestToTarget(req *http.Request, httpsDefault bool) (*http.Response, error) {
 	// Change request URL to point to the target server.
 	changeRequestToTarget(req, httpsDefault)
